@@ -303,6 +303,10 @@ int spki_table_copy_except_socket(struct spki_table *src, struct spki_table *dst
 	tommy_node *current_node;
 	int ret = SPKI_SUCCESS;
 
+	/* a destination whose initialisation failed cannot hold anything, also not "nothing yet" */
+	if (!spki_table_is_usable(dst))
+		return SPKI_ERROR;
+
 	pthread_rwlock_rdlock(&src->lock);
 	current_node = tommy_list_head(&src->list);
 	while (current_node) {
